@@ -6,6 +6,7 @@ cd /repo || exit 2
 if ! git diff --quiet; then echo "/repo is dirty, refusing"; exit 2; fi
 if ! git apply --3way "$patch" 2>/tmp/apply.err && ! patch -p1 --no-backup-if-mismatch < "$patch" >/tmp/apply.err 2>&1; then echo "PATCH DOES NOT APPLY"; cat /tmp/apply.err; git checkout -- . ; git reset -q; exit 3; fi
 git reset -q
+rm -rf /tmp/evidence_backup; cp -r /verif/evidence /tmp/evidence_backup
 for c in "$@"; do
   out=$(cd /verif && ./check "$c" --tier quick 2>&1)
   rc=$?
@@ -13,4 +14,5 @@ for c in "$@"; do
   echo "$out" | grep -E "VIOLATION|what:|KNOWN|TOOL-ERROR" | head -6 | cut -c1-300
 done
 git checkout -- .
+rm -rf /verif/evidence; cp -r /tmp/evidence_backup /verif/evidence
 git status --short | head -3
